@@ -22,7 +22,8 @@ func TestOutputHash(t *testing.T) {
 	fmt.Printf("CASE %d {}\n", *flagFrom)
 	distinct := 0
 	runs := 0
-	var example string
+	var example, exampleNC string
+	unstableNC := 0
 	for id := *flagFrom; id < *flagTo; id++ {
 		r := &rnd{s: *flagSeed*131 + uint64(id)*977 + 7}
 		dir := filepath.Join(*flagDir, fmt.Sprintf("oh%d", id))
@@ -64,6 +65,31 @@ func TestOutputHash(t *testing.T) {
 			seen[res.OutputHash] = true
 			runs++
 		}
+		// the flavour computed for targets that bypass the cache (no-cache tag, cache disabled):
+		// it enters the key of every dependant just the same
+		seenNC := map[string]bool{}
+		{
+			be, err := backends.NewFileSystemCache(ctx)
+			if err != nil {
+				t.Fatal(err)
+			}
+			reg := output.NewRegistry(ctx, caching.NewCas(be))
+			for rep := 0; rep < 12; rep++ {
+				target := &model.Target{Label: label.TL("pkg", "t"), ChangeHash: "ch", Outputs: outs}
+				res, err := reg.GetNoCacheOutputHash(ctx, target)
+				if err != nil {
+					t.Fatal(err)
+				}
+				seenNC[res.OutputHash] = true
+				runs++
+			}
+		}
+		if len(seenNC) > 1 {
+			unstableNC++
+			if exampleNC == "" {
+				exampleNC = fmt.Sprintf("case %d: %d outputs, %d different no-cache output hashes over 12 identical evaluations", id, len(outs), len(seenNC))
+			}
+		}
 		if len(seen) > 1 {
 			distinct++
 			if example == "" {
@@ -72,6 +98,7 @@ func TestOutputHash(t *testing.T) {
 		}
 		_ = os.RemoveAll(dir)
 	}
-	fmt.Printf("RES %d %s\n", *flagFrom, mustJSON(map[string]any{"cases": *flagTo - *flagFrom, "writes": runs, "unstable_cases": distinct, "example": example}))
+	fmt.Printf("RES %d %s\n", *flagFrom, mustJSON(map[string]any{"cases": *flagTo - *flagFrom, "writes": runs, "unstable_cases": distinct, "example": example,
+		"unstable_nocache_cases": unstableNC, "example_nocache": exampleNC}))
 	fmt.Println("BATCH-DONE")
 }
